@@ -9,6 +9,30 @@ use serde_json::{json, Value};
 use tx3_tir::encoding::AnyTir;
 use tx3_tir::model::v1beta0 as tir;
 
+/// the same case with every lovelace amount (store and thresholds) counted in ADA: one unit covers a threshold of one
+/// unit at fee 0 and no longer does once a real fee is added to it
+fn scaled(v: &Value) -> Value {
+    let mut v = v.clone();
+    fn walk(x: &mut Value) {
+        match x {
+            Value::Array(a) => a.iter_mut().for_each(walk),
+            Value::Object(m) => {
+                let naked = m.get("c").map(|c| c["k"] == "naked").unwrap_or(false);
+                if naked {
+                    if let Some(n) = m.get("n").cloned() {
+                        let scaled = int_from(&n) * 1_000_000;
+                        m.insert("n".into(), int_to(scaled));
+                    }
+                }
+                m.values_mut().for_each(walk);
+            }
+            _ => {}
+        }
+    }
+    walk(&mut v);
+    v
+}
+
 fn query_expr(q: &Value) -> tir::InputQuery {
     let address = if q["address"].is_null() { tir::Expression::None } else { tir::Expression::Address(bytes_from(&q["address"])) };
     let refs: Vec<_> = q["refs"].as_array().cloned().unwrap_or_default().iter().map(tirj::ref_from).collect();
@@ -27,6 +51,12 @@ fn query_expr(q: &Value) -> tir::InputQuery {
                 tir::AssetExpr { policy: p, asset_name: n, amount: tir::Expression::Number(int_from(&e["n"])) }
             }).collect(),
         )
+    };
+    // a threshold that depends on the fee: it grows between the rounds of a resolution
+    let min_amount = if q["plus_fees"].as_bool().unwrap_or(false) && !q["min"].is_null() {
+        tir::Expression::EvalBuiltIn(Box::new(tir::BuiltInOp::Add(min_amount, tir::Param::ExpectFees.into())))
+    } else {
+        min_amount
     };
     tir::InputQuery { address, min_amount, r#ref, many: q["many"].as_bool().unwrap_or(false), collateral: q["collateral"].as_bool().unwrap_or(false) }
 }
@@ -98,8 +128,29 @@ pub fn run(case: &Value) -> Value {
             Err(p) => json!({"ev": "Error", "kind": "panic", "site": p["file"], "msg": p["msg"]}),
         });
     }
-    if case["end_to_end"].as_bool().unwrap_or(false) {
-        let store = ctx::RecStore::from_json(&case["store"]);
+    // end to end: as given; then in ADA units with the fee added to the threshold of the first regular block in name
+    // order, and of every regular block (the thresholds then grow between the rounds of one resolution)
+    let e2e = case["end_to_end"].as_bool().unwrap_or(false);
+    for variant in ["plain", "first_plus_fees", "all_plus_fees"] {
+        if !e2e {
+            break;
+        }
+        let (store_json, queries): (Value, Vec<Value>) = if variant == "plain" {
+            (case["store"].clone(), queries.clone())
+        } else {
+            let mut qs: Vec<Value> = queries.iter().map(scaled).collect();
+            let mut names: Vec<String> = qs.iter().filter(|q| !q["collateral"].as_bool().unwrap_or(false)).map(|q| str_of(&q["name"]).to_string()).collect();
+            names.sort();
+            for q in qs.iter_mut() {
+                let regular = !q["collateral"].as_bool().unwrap_or(false);
+                let first = names.first().map(|n| n == str_of(&q["name"])).unwrap_or(false);
+                if regular && (variant == "all_plus_fees" || first) {
+                    q["plus_fees"] = json!(true);
+                }
+            }
+            (scaled(&case["store"]), qs)
+        };
+        let store = ctx::RecStore::from_json(&store_json);
         let tx = template(&queries, true);
         let mut compiler = ctx::RecCompiler::new(ctx::make_compiler(&case["cfg"]));
         let args = std::collections::BTreeMap::new();
